@@ -267,11 +267,22 @@ def make_programs(max_len, pool, STM=STM):
         from pedal.core.submission import Submission
         files = dict(EXTRA_FILES)
         files['answer.py'] = code
-        cmds.contextualize_report(Submission(files=files, main_file='answer.py', main_code=code))
+        conf = ctx.choose(5, 'sandbox-configuration')      # plain | threaded | line tracing on (as the environments have it)
+        #                                                    | sandbox configured before the submission exists
+        #                                                    | second submission attached to the same report
+        if conf == 3:
+            sb_cmds.get_sandbox().allowed_time = 30
+        elif conf == 4:
+            other = dict(EXTRA_FILES)
+            other['helper.py'] = "print('the other helper')\nHX = 100\ndef hf(a):\n    return -a\n"
+            other['answer.py'] = "import helper\n"
+            cmds.contextualize_report(Submission(files=other, main_file='answer.py', main_code=other['answer.py']))
+            sb_cmds.get_sandbox()
+        cmds.contextualize_report(Submission(files=files, main_file='answer.py', main_code=code),
+                                  **({'clear': False} if conf in (3, 4) else {}))
         sb = sb_cmds.get_sandbox()
         sb.set_input(list(queue))
         # the sandbox may be configured to run everything under a time limit (as the environments do): same behaviour
-        conf = ctx.choose(3, 'sandbox-configuration')      # plain | threaded | line tracing on (as the environments have it)
         if conf == 1:
             sb.threaded = True
             sb.allowed_time = 20
